@@ -44,15 +44,40 @@ type Outer struct {
 	MP map[string]*Inner
 	MK map[int]string
 	PA *any // pointer to an interface: a path may end here but must not continue below (F-C15i)
+	E  Emb
+	PE *Emb
+	ME map[string]Emb
+}
+
+// Emb embeds one struct by value and one by pointer: the fields of Leaf (A, B) and of Inner (X, Y, Z, L, PL,
+// M, ML; u is promoted too but unexported) can be named directly or through the embedded field (F-C15k, F-C15l)
+type Emb struct {
+	Leaf
+	*Inner
+	W int
+}
+
+type hid struct {
+	Q int
+}
+
+// EmbU is used as a successor input type only: Q is promoted through an embedded pointer to an unexported struct
+// type, which reflection cannot instantiate (rejected at compile time for target paths since F-C15k)
+type EmbU struct {
+	*hid
+	W int
 }
 
 var _ = Inner{}.u
 
-var structNames = []string{"Leaf", "Inner", "Outer"}
+var structNames = []string{"Leaf", "Inner", "Outer", "Emb", "hid", "EmbU"}
 var structTypes = map[string]reflect.Type{
 	"Leaf":  reflect.TypeOf(Leaf{}),
 	"Inner": reflect.TypeOf(Inner{}),
 	"Outer": reflect.TypeOf(Outer{}),
+	"Emb":   reflect.TypeOf(Emb{}),
+	"hid":   reflect.TypeOf(hid{}),
+	"EmbU":  reflect.TypeOf(EmbU{}),
 }
 
 func structID(name string) int {
@@ -71,6 +96,7 @@ var syms = []string{
 	"A", "B", "X", "Y", "Z", "L", "PL", "M", "ML", "u",
 	"I", "PI", "PP", "H", "N", "S", "MA", "MS", "MI", "MP", "MK",
 	"k", "j", "a", "b", "c", "nope", "PA",
+	"E", "PE", "ME", "Leaf", "Inner", "W", "hid", "Q",
 }
 var symIdx = func() map[string]int {
 	m := map[string]int{}
@@ -164,6 +190,68 @@ func coqEnv() string {
 		ss = append(ss, lib.CoqPair(lib.CoqN(uint64(i)), lib.CoqList(fs)))
 	}
 	return lib.CoqList(ss)
+}
+
+// the embedded fields through which the field `name` of struct type t is promoted (nil: a direct field, or none)
+func promotionChain(t reflect.Type, name string) []string {
+	sf, ok := t.FieldByName(name)
+	if !ok || len(sf.Index) < 2 {
+		return nil
+	}
+	var chain []string
+	for j := 1; j < len(sf.Index); j++ {
+		chain = append(chain, t.FieldByIndex(sf.Index[:j]).Name)
+	}
+	return chain
+}
+
+// the promotion table of the model, generated from the Go declarations by reflection:
+// struct id -> promoted field name -> names of the embedded fields leading to it
+func coqPenv() string {
+	var ss []string
+	for i, name := range structNames {
+		t := structTypes[name]
+		var fs []string
+		for _, f := range syms {
+			if chain := promotionChain(t, f); chain != nil {
+				fs = append(fs, lib.CoqPair(lib.CoqN(sym(f)), coqPath(chain)))
+			}
+		}
+		if len(fs) > 0 {
+			ss = append(ss, lib.CoqPair(lib.CoqN(uint64(i)), lib.CoqList(fs)))
+		}
+	}
+	return lib.CoqList(ss)
+}
+
+// a field path as the walkers resolve it: promoted names spelled out through the embedded fields, along the
+// static type te; whatever lies below an interface or cannot be walked is kept
+func expandPath(te string, p []string) []string {
+	var out []string
+	for i, f := range p {
+		switch {
+		case strings.HasPrefix(te, "map[string]"):
+			out = append(out, f)
+			te = te[len("map[string]"):]
+			continue
+		case strings.HasPrefix(te, "map[int]"):
+			out = append(out, f)
+			te = te[len("map[int]"):]
+			continue
+		}
+		st, ok := structTypes[strings.TrimPrefix(te, "*")]
+		if !ok {
+			return append(out, p[i:]...)
+		}
+		sf, ok := st.FieldByName(f)
+		if !ok {
+			return append(out, p[i:]...)
+		}
+		out = append(out, promotionChain(st, f)...)
+		out = append(out, f)
+		te = typeExpr(sf.Type)
+	}
+	return out
 }
 
 // ------------------------------------------------------------------ value trees
